@@ -48,7 +48,7 @@ TIERS = {
     "thorough": {"runs": 1500000, "time_cap_s": 1200, "chunk": 400, "det_inproc": 60, "det_fresh": 30, "minimise_s": 120},
 }
 
-STRATEGIES = ["uniform", "sticky", "sticky", "reader_first", "consumer_first"]
+STRATEGIES = ["uniform", "sticky", "sticky", "reader_first", "consumer_first", "pct"]
 EXCS = ["OSError", "IndexError", "ValueError", "RuntimeError", "KeyError", "MemoryError"]
 
 
